@@ -14,7 +14,7 @@
     engine by `engine cancel` (cancellation after every number of polls, panics, dropped
     commit futures), not proved. *)
 From QV Require Import Common.Prelude Engine.Model Engine.Core Engine.CoreSpec Engine.CoreCancel.
-From QV Require Import Engine.MdlSpec Engine.MdlCancel.
+From QV Require Import Engine.MdlSpec Engine.MdlCancel Engine.MdlCancelOnce Engine.MdlRunBase Engine.MdlRun Engine.MdlSites.
 
 Theorem C05_core_cancel_sound : forall fuel p ops i n r z,
   wf_core p -> csessions_fuelled fuel p ops i -> cpartials_ok p ops i ->
@@ -60,6 +60,21 @@ Theorem C05_model_cancel_user_step_is_step : forall p s o,
 Proof. exact MdlCancel.mstep_cancel_user. Qed.
 Theorem C05_model_cancel_side_condition_needed : ~ model_cancel_sound_unguarded.
 Proof. exact MdlCancel.model_cancel_side_condition_needed. Qed.
+(** nothing is executed twice in an epoch, cancelled work included (any program, arbitrary
+    partial requests - no side condition; sessions without refresh) *)
+Theorem C05_model_cancel_once :
+  forall p ops i j m lj li, Forall mop_once_scope ops ->
+    let ex := mexecs_cancel_f fuel0 4000 p init_state ops in
+    (nth_error ex i = Some li -> NoDup li) /\
+    ((j < i)%nat -> nth_error ex j = Some lj -> In m lj -> nth_error ex i = Some li -> In m li ->
+     ~ mno_session_between ops j i).
+Proof. exact MdlCancelOnce.model_cancel_once. Qed.
+(** the side condition is exactly the request premises of the soundness induction, which that
+    induction establishes at every call site of [query_for] (one lemma per site in MdlSites.v) *)
+Theorem C05_model_side_condition_is_the_induction_premise : forall p stk c n s,
+  mpartial_ok p s stk c n <-> (StkR p stk n /\ (is_cq c = false -> stk = []) /\ MNPq c n s).
+Proof. exact MdlSites.request_premises_partial_ok. Qed.
+Check site_user. Check site_tfc. Check site_bp. Check site_retry. Check site_read. Check site_walk.
 Check mpartial_unchanged.
 Check mcx_run_ok.     (* cancelled pedantic work is reused: right answer afterwards *)
 
@@ -75,3 +90,5 @@ Print Assumptions C05_core_cancel_once.
 Print Assumptions C05_model_cancel_sound.
 Print Assumptions C05_model_cancel_user_step_is_step.
 Print Assumptions C05_model_cancel_side_condition_needed.
+Print Assumptions C05_model_cancel_once.
+Print Assumptions C05_model_side_condition_is_the_induction_premise.
